@@ -161,16 +161,23 @@ func c31UnboundedScenario(name string, producers, per int, closer bool, bound in
 		rejected := map[int]bool{}
 		var got []int
 		closedSeen := false
+		closeReturned := false
 		afterClose := ""
 		for p := 0; p < producers; p++ {
 			base := (p + 1) * 10
 			x.Go(fmt.Sprintf("prod%d", p), func() {
 				for i := 0; i < per; i++ {
 					v := base + i
+					mu.Lock()
+					wasClosed := closeReturned
+					mu.Unlock()
 					err := b.Put(v)
 					mu.Lock()
 					if err == nil {
 						accepted[v] = true
+						if wasClosed {
+							afterClose = fmt.Sprintf("Put(%d) was accepted although Close had already returned", v)
+						}
 					} else {
 						rejected[v] = true
 					}
@@ -202,6 +209,9 @@ func c31UnboundedScenario(name string, producers, per int, closer bool, bound in
 			x.Go("closer", func() {
 				vsched.Yield()
 				b.Close()
+				mu.Lock()
+				closeReturned = true
+				mu.Unlock()
 			})
 		}
 		x.Final(func(x *vsched.X) {
